@@ -439,10 +439,13 @@ bufferevent_socket_connect(struct bufferevent *bev,
 	} else if (r == 1) {
 		/* The connect succeeded already. How very BSD of it. */
 		result = 0;
-		bufev_p->connecting = 1;
-		/* let the write event's handler notice the finished connect
-		 * and report BEV_EVENT_CONNECTED first */
-		event_active(&bev->ev_write, EV_WRITE, 1);
+		/* Wait for the (already writable) socket exactly as for a
+		 * connect in progress: the write event's handler then reports
+		 * BEV_EVENT_CONNECTED first.  The event must really be added:
+		 * merely activating it would leave it neither pending nor
+		 * active after its first run. */
+		if (! be_socket_enable(bev, EV_WRITE))
+			bufev_p->connecting = 1;
 	} else {
 		/* The connect failed already (only ECONNREFUSED case). How very BSD of it. */
 		result = 0;
